@@ -39,20 +39,35 @@ Print Assumptions trap_amplitude_exact.
 (* requested timing.  [supplied_timing a] excludes only the area-only call, for which the code documents
    (with a warning) that rise_time / fall_time are ignored; a ramp given as 0 counts as not given
    (Python `rise_time or fall_time`).  A requested flat_time >= 0 is returned unchanged (one in (-eps, 0)
-   becomes 0).  With a requested duration the three parts add up to it exactly on the area paths and
-   whenever the two ramps fit; the amplitude+duration path tolerates a duration up to eps shorter than
-   the two ramps and then returns flat_time = 0 (anything shorter is rejected: defect 14). *)
+   becomes 0).  With a requested duration the three parts add up to it exactly whenever the two ramps fit
+   into it, always when the function chooses the ramps of an area request, and — as long as the area +
+   duration feasibility test is the exact one (Gen constant trap_possible_tolerant = false, the form the
+   repository has today) — on every area path; the amplitude+duration path (and the area path once the
+   proposed eps-tolerant test is adopted) tolerates a duration up to eps shorter than the two ramps and then
+   returns flat_time = 0 (anything shorter is rejected: defect 14). *)
 Theorem trap_timing_as_requested : forall a g, make_trap a = OK g ->
   (forall t, a_flat_time a = Some t ->
      (0 <= t /\ t_flat g = t) \/ (- eps < t /\ t < 0 /\ t_flat g = 0)) /\
   (forall d, a_duration a = Some d -> a_flat_time a = None ->
      d <= t_rise g + t_flat g + t_fall g /\ t_rise g + t_flat g + t_fall g <= d + eps /\
-     (a_amplitude a = None \/ t_rise g + t_fall g <= d -> t_rise g + t_flat g + t_fall g == d)) /\
+     (t_rise g + t_fall g <= d -> t_rise g + t_flat g + t_fall g == d) /\
+     (a_amplitude a = None -> por (a_rise a) (a_fall a) = None -> t_rise g + t_flat g + t_fall g == d) /\
+     (trap_possible_tolerant = false -> a_amplitude a = None -> t_rise g + t_flat g + t_fall g == d)) /\
   (supplied_timing a ->
      (forall r, a_rise a = Some r -> ~ r == 0 -> t_rise g = r /\ (a_fall a = None -> t_fall g = r)) /\
      (forall f, a_fall a = Some f -> ~ f == 0 -> t_fall g = f /\ (a_rise a = None -> t_rise g = f))).
 Proof. exact trap_timing_as_requested_l. Qed.
 Print Assumptions trap_timing_as_requested.
+
+(* area + flat_time + ramps with a `duration` on top (over-determined request).  The repository today
+   IGNORES the duration (finding of round 2, proposed repair /tmp/c11_fixC.patch); once the code checks it
+   (Gen constant trap_flat_checks_duration = true) every returned event honours it within eps. *)
+Theorem trap_duration_with_flat_time_consistent : forall a g A d t,
+  trap_flat_checks_duration = true -> make_trap a = OK g ->
+  a_area a = Some A -> a_duration a = Some d -> a_flat_time a = Some t -> 0 <= t ->
+  Qabs (d - (t_rise g + t_flat g + t_fall g)) <= eps.
+Proof. exact trap_flat_duration_l. Qed.
+Print Assumptions trap_duration_with_flat_time_consistent.
 
 (* the derived fields are the waveform integrals *)
 Theorem trap_area_field : forall a g, make_trap a = OK g ->
